@@ -39,8 +39,7 @@ static bool seg_hits_rect(double px, double py, double qx, double qy, double x0,
     // midpoint tests of the four clipped candidates are replaced by: the segment crosses two opposite/adjacent open sides'
     // supporting lines inside the rectangle; sufficient exact criterion for convex region: the segment intersects the open
     // rectangle iff it separates no pair of ... (use the standard separating-axis test for a segment vs an open box)
-    double sx0 = px < qx ? px : qx, sx1 = px < qx ? qx : px, sy0 = py < qy ? py : qy, sy1 = py < qy ? qy : py;
-    bool boxes = (sx0 < x1) & (sx1 > x0) & (sy0 < y1) & (sy1 > y0);
+    bool boxes = ((px < x1) | (qx < x1)) & ((px > x0) | (qx > x0)) & ((py < y1) | (qy < y1)) & ((py > y0) | (qy > y0));
     // the segment's line separates the box's corners strictly, or touches: all four corners on one closed side => no hit
     double c1 = dx * (y0 - py) - dy * (x0 - px), c2 = dx * (y0 - py) - dy * (x1 - px), c3 = dx * (y1 - py) - dy * (x0 - px), c4 = dx * (y1 - py) - dy * (x1 - px);
     bool allpos = (c1 >= 0) & (c2 >= 0) & (c3 >= 0) & (c4 >= 0), allneg = (c1 <= 0) & (c2 <= 0) & (c3 <= 0) & (c4 <= 0);
@@ -72,7 +71,8 @@ extern "C" void harness(void) {
         while (again && rounds < 10) { again = t.solve(); rounds++; }
         verif_out_int(rounds);
         for (size_t i = 0; i < nodes.size(); i++) { verif_out_double(nodes[i]->rect->getCentreX()); verif_out_double(nodes[i]->rect->getCentreY()); }
-        // --- obligations
+        // --- obligations (oracle code below is branch-free; inexact comparisons become may/must pairs)
+        verif_band_nofork(1);
         ConstEdgePoints path; es[0]->getPath(path);
         verif_out_int((int)path.size());
         CHECK(path.size() >= 2, "C13 the edge path has at least its two end points");
@@ -88,8 +88,8 @@ extern "C" void harness(void) {
                         // a segment ending on a corner of this node: it may touch the corner, never cross the interior
                     }
                     vpsc::Rectangle *r = nodes[n]->rect;
-                    // tolerance: the segment must not reach 1e-4 deep into the node (bend points sit on corners up to rounding)
-                    CHECK(!seg_hits_rect(px, py, qx, qy, r->getMinX() + 1e-4, r->getMinY() + 1e-4, r->getMaxX() - 1e-4, r->getMaxY() - 1e-4), "C13 no segment of an edge path passes through the interior of another node");
+                    // tolerance: the segment must not reach 0.01 deep into the node (bend points sit on corners up to rounding)
+                    CHECK(!seg_hits_rect(px, py, qx, qy, r->getMinX() + 0.01, r->getMinY() + 0.01, r->getMaxX() - 0.01, r->getMaxY() - 0.01), "C13 no segment of an edge path passes through the interior of another node");
                 }
             }
         }
@@ -99,6 +99,7 @@ extern "C" void harness(void) {
             CHECK(!ov, "C13 no two node rectangles overlap");
         }
     }
+    verif_band_nofork(0);
     WITNESS_POINT();
     for (size_t i = 0; i < nodes.size(); i++) { delete nodes[i]->rect; delete nodes[i]; }
     for (size_t i = 0; i < vs.size(); i++) delete vs[i];
